@@ -18,6 +18,26 @@ CLAIMED = {
    "All permutations of the packets of 13 tiny sessions (<=7 packets) and seeded multi-transfer/carousel sessions under drop, duplication (adjacent and late), swap/jitter/full-shuffle reordering and, when MD5 is announced and checked, payload bit flips/truncation/extension; oracle: complete => exact bytes, never complete and failed.",
    "TOIs unique per scenario; harness decoder; sampling except the enumerated permutations",
    "deterministic simulation (seeded + exhaustive reordering, duplication, loss, payload corruption) + byte-exactness oracle"),
+ "C08": ("exploration", "4.C08",
+   "Seeded sender histories (5 FEC schemes, E, B, parity, interleave, multiplex, cenc, 1-3 transfers, carousel, removal at packet indices, immediate-stop, close-session packet); every emitted packet is decoded by the harness's independent RFC decoder and each transfer (Start/StopTransfer span) is checked against the RFC 5052 partition: source symbols exactly once, <= parity repair symbols, increasing ESIs, payload = E-byte slice of the (re-inflated) object, close flags only where allowed.",
+   "harness RFC decoder / partition reference / flate2; two recorded known findings (Raptor re-cuts short blocks)",
+   "deterministic simulation of the sender under seeded application histories and poll schedules + wire-tap trace oracle"),
+ "C11": ("exploration", "4.C11",
+   "Seeded interleavings of add/publish/remove/read with advancing time (both publish modes, queues, multiplex, late adds/publishes at arbitrary packet indices, multi-packet FDTs); trace oracle: complete listing instance before every object packet, new instances contiguous, only FDT packets after an explicit publish until the instance is out.",
+   "harness RFC decoder, FDT reassembly and XML reader",
+   "deterministic simulation of the sender under seeded operation interleavings + ordering invariant on the packet trace"),
+ "C12": ("fault_enumeration", "4.C12",
+   "remove_object after every packet index 0..44 of 81 small lifecycle configurations (enumerated) plus seeded lifecycle histories; sender queried after every poll; oracle: exact transfer counts, counter = completed transfers on the wire, removal semantics, finite reads at a fixed instant, only FDT packets when no object is left.",
+   "Subscriber events delimit transfers; harness decoder",
+   "deterministic simulation with enumerated removal points (fault = removal at packet index k) + lifecycle reference model"),
+ "C13": ("exploration", "4.C13",
+   "Enumerated grid (384 workloads) and seeded workloads over queues x multiplex x interleave x object sizes x late additions; per-packet scheduling invariants (strict priority, FIFO admission, multiplex bound, round-robin, interleave window, block order).",
+   "readiness model as stated in the evidence rule; Subscriber events delimit transfers",
+   "deterministic simulation of the sender scheduler + per-packet scheduling invariants"),
+ "C14": ("exploration", "4.C14",
+   "Seeded polling schedules on a discrete-event clock (1 us grids to multi-second stalls) x start times x carousel delay/interval x target duration/deadline (incl. zero/past) x sizes incl. 0/1 symbol x triggers; never-early oracles in exact rational arithmetic and due-packet liveness at drained polls; panics/hangs are violations.",
+   "Subscriber events carry the instants flute uses; pacing tick definition from the code",
+   "deterministic discrete-event simulation of the sender clock/poll schedule + timing model (never-early, due-packet liveness)"),
 }
 NOT_APPLICABLE = {
  "C06": "pure codec function of its input (encode/parse of one packet): no schedule, clock, fault or interleaving to simulate; deciding it is input enumeration, not simulation (DESIGN.md s5)",
